@@ -101,7 +101,9 @@ type Sched struct {
 	stopped bool
 	free    bool // record-only mode: nobody parks
 	Stats   Stats
-	OnEvent func(e Event) // called under the mutex at every arrival (cancellation at the k-th event etc.)
+	// OnEvent is called under the mutex at every arrival (cancellation at the k-th event etc.); the events it
+	// returns are appended to the log right after e (attributed to the harness).
+	OnEvent func(e Event) []Event
 
 	Settle    time.Duration
 	Watchdog  time.Duration
@@ -172,9 +174,15 @@ func (s *Sched) Hook(point string, kv ...interface{}) {
 	s.log = append(s.log, ev)
 	s.lastArr = time.Now()
 	if s.OnEvent != nil {
-		s.OnEvent(ev)
+		for _, x := range s.OnEvent(ev) {
+			x.Seq = len(s.log)
+			s.log = append(s.log, x)
+		}
 	}
 	if s.free || s.stopped {
+		if kind == Exit {
+			g.state = gGone
+		}
 		s.mu.Unlock()
 		return
 	}
@@ -225,6 +233,29 @@ func (s *Sched) Leave() {
 		s.cond.Broadcast()
 	}
 	s.mu.Unlock()
+}
+
+// WaitGone waits until every goroutine the scheduler has seen has announced its end (Exit point or Leave),
+// so that stragglers of one scenario cannot call into the next scenario's scheduler.
+func (s *Sched) WaitGone(timeout time.Duration) bool {
+	deadline := time.Now().Add(timeout)
+	for {
+		s.mu.Lock()
+		n := 0
+		for _, g := range s.gs {
+			if g.state != gGone {
+				n++
+			}
+		}
+		s.mu.Unlock()
+		if n == 0 {
+			return true
+		}
+		if time.Now().After(deadline) {
+			return false
+		}
+		time.Sleep(100 * time.Microsecond)
+	}
 }
 
 type HangError struct {
